@@ -8,6 +8,7 @@
 package events
 
 import (
+	"context"
 	"encoding/json"
 	"errors"
 	"fmt"
@@ -46,7 +47,13 @@ type Op struct {
 	Tgt string `json:"tgt,omitempty"` // nil never stopped foreign live
 	Snd int    `json:"snd,omitempty"` // 0 = no sender
 	Msg int    `json:"msg,omitempty"`
+	// Via: "" = Engine.Send / SendWithSender, "local" = Engine.SendLocal, "stop" / "poison" = Engine.Stop /
+	// Engine.Poison of that target (the undeliverable thing is then the engine's own stop request)
+	Via string `json:"via,omitempty"`
 }
+
+// pillMarker stands for the engine-private stop request in an expected DeadLetterEvent.
+type pillMarker struct{}
 
 type Case struct {
 	Subs int  `json:"subs"`
@@ -409,14 +416,56 @@ func run(c Case, c09 bool) (feat map[string]int, err error) {
 			default:
 				return nil, nil
 			}
+			switch op.Via {
+			case "":
+			case "local":
+				// SendLocal looks the id up whatever the address says, and reports a nil target too
+				if op.Tgt == "foreign" {
+					return nil, nil
+				}
+				if op.Tgt == "nil" {
+					h.add(exp{kind: "dl", tgt: nil, snd: snd, msg: msg})
+				}
+				h.note("send-via-SendLocal")
+			case "stop", "poison":
+				if op.Tgt == "foreign" || op.Tgt == "live" {
+					return nil, nil
+				}
+				// the expectation recorded above was for a user message: replace it by the stop request
+				for i := range h.expect {
+					if n := len(h.expect[i]); n > 0 && h.expect[i][n-1].kind == "dl" && h.expect[i][n-1].msg == msg && op.Tgt != "nil" {
+						h.expect[i] = h.expect[i][:n-1]
+					}
+				}
+				h.add(exp{kind: "dl", tgt: tgt, snd: nil, msg: pillMarker{}})
+				h.note("stop-request-for-an-absent-actor")
+			default:
+				return nil, nil
+			}
+			var stopCtx context.Context
 			if p := protect(func() {
-				if snd == nil && op.Msg%2 == 0 {
+				switch {
+				case op.Via == "local":
+					e.SendLocal(tgt, msg, snd)
+				case op.Via == "stop":
+					stopCtx = e.Stop(tgt)
+				case op.Via == "poison":
+					stopCtx = e.Poison(tgt)
+				case snd == nil && op.Msg%2 == 0:
 					e.Send(tgt, msg)
-				} else {
+				default:
 					e.SendWithSender(tgt, msg, snd)
 				}
 			}); p != nil {
-				return nil, fmt.Errorf("op %d: sending to a %s target panicked: %v", oi, op.Tgt, p)
+				return nil, fmt.Errorf("op %d: sending (%s) to a %s target panicked: %v", oi, op.Via, op.Tgt, p)
+			}
+			if stopCtx != nil {
+				// nobody is left who could complete this context later: it is done now or never
+				select {
+				case <-stopCtx.Done():
+				case <-time.After(5 * time.Second):
+					return nil, fmt.Errorf("op %d: the context of a %s for a %s target never became done", oi, op.Via, op.Tgt)
+				}
 			}
 			if op.Tgt == "live" {
 				select {
@@ -443,6 +492,8 @@ func run(c Case, c09 bool) (feat map[string]int, err error) {
 				return nil, fmt.Errorf("%w: poison of a subscriber not done", errInconclusive)
 			}
 			s.gone = true
+			// its ActorStoppedEvent is an engine event like any other: every remaining subscriber gets it once
+			h.add(exp{kind: "life", text: "stopped:" + s.pid.ID})
 			if h.model[op.I] {
 				h.departed[s.pid.ID] = true
 				h.note("departed-subscriber")
@@ -498,8 +549,8 @@ func (h *harness) compare(i int, log []rec, want []exp) error {
 			if r.kind == "dl" && r.tgt != nil && h.departed[r.tgt.ID] {
 				continue // an event forwarded to a subscriber that left: allowed, bounded above
 			}
-			if r.kind == "life" && !strings.Contains(r.text, ":tmp/") {
-				continue // lifecycle of the harness's own actors
+			if r.kind == "life" && !strings.Contains(r.text, ":tmp/") && !strings.HasPrefix(r.text, "stopped:sub/") {
+				continue // lifecycle of the harness's own actors (a subscriber that leaves is part of the history)
 			}
 			return r
 		}
@@ -534,7 +585,12 @@ func (h *harness) compare(i int, log []rec, want []exp) error {
 			}
 			ok := r.kind == w.kind && r.text == w.text
 			if ok && (w.kind == "dl" || w.kind == "rm") {
-				ok = samePID(r.tgt, w.tgt) && samePID(r.snd, w.snd) && reflect.DeepEqual(r.msg, w.msg)
+				ok = samePID(r.tgt, w.tgt) && samePID(r.snd, w.snd)
+				if _, pill := w.msg.(pillMarker); pill {
+					ok = ok && fmt.Sprintf("%T", r.msg) == "actor.poisonPill"
+				} else {
+					ok = ok && reflect.DeepEqual(r.msg, w.msg)
+				}
 			}
 			if !ok {
 				return fmt.Errorf("%s: expected %v, got %v", name, we, *r)
@@ -573,6 +629,12 @@ func genCase(t *rapid.T, c09 bool) Case {
 			op.Tgt = rapid.SampledFrom([]string{"nil", "never", "never", "stopped", "stopped", "foreign", "foreign", "live"}).Draw(t, "tgt")
 			op.Snd = rapid.IntRange(0, 3).Draw(t, "snd")
 			op.Msg = rapid.IntRange(0, 11).Draw(t, "msg")
+			switch op.Tgt {
+			case "nil", "never", "stopped":
+				op.Via = rapid.SampledFrom([]string{"", "", "", "local", "stop", "poison"}).Draw(t, "via")
+			case "live":
+				op.Via = rapid.SampledFrom([]string{"", "", "local"}).Draw(t, "via")
+			}
 		}
 		c.Ops = append(c.Ops, op)
 	}
